@@ -4,6 +4,7 @@ written from the statement)."""
 import json
 import os
 import re
+import shutil
 import sqlite3
 
 from .. import common, cli, gen, realrun, statecheck
@@ -104,6 +105,17 @@ def add_hostile(rng, pr, sc_root):
         opts.append(lambda: mk(os.path.join(pkg, "%s.task.%d" % (name, r0[1] + 100000))))
     for f in rng.sample(opts, rng.randint(3, len(opts))):
         f()
+    if rng.random() < 0.25 and shutil.which("setpriv"):
+        # an unrecorded experiment output that contains a read-only sub-directory (tools that protect their results,
+        # copied-in caches): deleting it takes more than unlink - gc then runs WITHOUT root's permission override
+        d = os.path.join(out, "a", "protected.task.31")
+        os.makedirs(os.path.join(d, "ro", "sub"), exist_ok=True)
+        open(os.path.join(d, "ro", "sub", "f"), "w").write("x")
+        open(os.path.join(d, "top"), "w").write("y")
+        os.chmod(os.path.join(d, "ro", "sub"), 0o555)
+        os.chmod(os.path.join(d, "ro"), 0o555)
+        added.append("a/protected.task.31 (read-only sub-directories)")
+        pr.unprivileged_gc = True
     # symlinks
     outside = os.path.join(sc_root, "outside-%d" % rng.randrange(10 ** 6))
     if rng.random() < 0.7:
@@ -175,7 +187,11 @@ def eval_case(case):
             before = snap_project()
             before_out = statecheck.full_snapshot(outside) if os.path.isdir(outside) else {}
             argv = ["gc"] + {"gc": [], "dry": ["-n"], "verbose": ["-v"], "dry-long": ["--dry-run"], "dry-verbose": ["-n", "-v"], "verbose-long": ["--verbose"]}[mode]
-            r = pr.cond(argv, timeout=120)
+            if getattr(pr, "unprivileged_gc", False):
+                r = pr.cond(argv, timeout=120, mode="exec", unprivileged=True)
+                bump("c13_gc_runs_without_permission_override")
+            else:
+                r = pr.cond(argv, timeout=120)
             after = snap_project()
             after_out = statecheck.full_snapshot(outside) if os.path.isdir(outside) else {}
             W = {"engine": "E4", "case": case, "history": hist, "added": added, "mode": mode, "rows": rows, "model_delete": sorted(os.path.relpath(d, pr.root) for d in delete), "result": cli.brief(r, 1500)}
